@@ -15,6 +15,10 @@ def gen_script(rnd, kind=None):
     kind = kind or rnd.choice(["go_finish", "go_stop", "ponder_hit", "ponder_stop", "back_to_back", "threads_between", "quit_during", "mixed", "mixed"])
     s = []
     thr = rnd.choice([1, 2, 2, 3, 4, 4, 6, 8])
+    if kind == "deep_tree":
+        # 22 threads and more make WorkerThread::createWorkers build a tree of depth three (a helper whose child has a child): commands
+        # going down and results / acknowledgements coming up then cross in the middle of the tree
+        thr = rnd.choice([22, 24, 27])
     s.append((f"setoption name Threads value {thr}", 0))
     if rnd.random() < 0.3:
         s.append(("isready", 0))
@@ -43,6 +47,10 @@ def gen_script(rnd, kind=None):
     elif kind == "threads_between":
         s += [pos(), ("go depth 4", d()), (f"setoption name Threads value {rnd.choice([1, 2, 3, 5])}", d()), pos(), ("go depth 4", d()),
               (f"setoption name Threads value {rnd.choice([1, 2, 4])}", d()), ("go infinite", d()), ("stop", d())]
+    elif kind == "deep_tree":
+        for _ in range(rnd.randint(4, 7)):
+            s += [pos(), (rnd.choice(["go infinite", "go depth 5", "go movetime 20", "go nodes 20000"]), d()),
+                  (rnd.choice(["stop", "stop", "isready"]), rnd.choice([0.002, 0.01, 0.03, 0.08]))]
     elif kind == "quit_during":
         s += [pos(), (rnd.choice(["go infinite", "go depth 9", "go ponder depth 6"]), d())]
     else:
